@@ -837,6 +837,15 @@ func (em *emitter) emitSwitch(node *ast.Switch) {
 	} else {
 		typ = em.typ(node.Expr)
 		expr = em.emitExpr(node.Expr, typ)
+		if ti := em.ti(node.Expr); ti != nil && !ti.HasValue() {
+			// Compare the cases with the value of the expression, that is
+			// now in the register expr, so that the expression is evaluated
+			// only once.
+			em.fb.bindVarReg("$switchExpr", expr)
+			tag := ast.NewIdentifier(node.Expr.Pos(), "$switchExpr")
+			em.typeInfos[tag] = ti
+			node.Expr = tag
+		}
 	}
 
 	bodyLabels := make([]label, len(node.Cases))
